@@ -49,7 +49,7 @@ def surface(name="wing", nx=2, ny=3, symmetry=True, side="left", model="tube", g
         "CD0": 0.015,
         "k_lam": 0.05,
         "t_over_c_cp": np.array([0.12]),
-        "c_max_t": 0.303,
+        "c_max_t": 0.35,                 # not the documented default 0.303
         "with_viscous": with_viscous,
         "with_wave": with_wave,
         "fem_model_type": model,
@@ -62,8 +62,8 @@ def surface(name="wing", nx=2, ny=3, symmetry=True, side="left", model="tube", g
         "struct_weight_relief": struct_weight_relief,
         "distributed_fuel_weight": distributed_fuel_weight,
         "exact_failure_constraint": False,
-        "Wf_reserve": 1000.0,
-        "fuel_density": 803.0,
+        "Wf_reserve": 1300.0,
+        "fuel_density": 790.0,
         "twist_cp": np.zeros(2),
         "thickness_cp": np.array([0.1, 0.2]),
     }
@@ -73,7 +73,7 @@ def surface(name="wing", nx=2, ny=3, symmetry=True, side="left", model="tube", g
         d.update({
             "data_x_upper": _UX.copy(), "data_x_lower": _UX.copy(), "data_y_upper": _UY.copy(), "data_y_lower": _LY.copy(),
             "strength_factor_for_upper_skin": 1.25,        # not the neutral value: a factor applied twice or not at all shows
-            "original_wingbox_airfoil_t_over_c": 0.12,
+            "original_wingbox_airfoil_t_over_c": 0.14,        # differs from the t/c the surface runs at: the scaling is not neutral
             "spar_thickness_cp": np.array([0.004, 0.01]),
             "skin_thickness_cp": np.array([0.005, 0.02]),
         })
